@@ -690,8 +690,8 @@ def fmt_layout_trees(ck):
 
 def fmt_layout_correspondence(ck):
     """Model/FmtLayout.v format_let vs prql_to_pl + pl_to_prql (harness c12fmt): the formatted text, character by character,
-    and -- when the tree has the hook verif:fmt-calls -- the number of invocations of <pr::Expr as WriteSource>::write.
-    Without the hook the texts are still compared and the evidence says that the counts were not."""
+    and the number of invocations of <pr::Expr as WriteSource>::write that the hook verif:fmt-calls reports (a tree without
+    the hook is a VIOLATION: fail closed)."""
     cases = fmt_layout_trees(ck)
     impl = harness("c12fmt", [{"src": c[0]} for c in cases])
     header = ("From Coq Require Import List NArith ZArith.\nFrom PV Require Import Lib.ListX Model.FmtLayout.\nImport ListNotations.\n")
@@ -703,7 +703,9 @@ def fmt_layout_correspondence(ck):
     hook = any(a.get("calls") is not None for a in impl)
     ck.coverage["fmt_calls_hook_present"] = hook
     if not hook:
-        print("NOTE: property=C12 the tree has no hook `verif:fmt-calls` (hooks/fmt-calls.diff): formatted texts are compared with Model/FmtLayout.v, call counts are NOT")
+        # fail closed: the hook verif:fmt-calls is part of /repo since de8cd03; a tree without it cannot be checked for the counts
+        ck.violation("the hook verif:fmt-calls (pl_to_prql, /repo de8cd03) is missing from this tree: the invocation counts of Model/FmtLayout.v cannot be compared",
+                     {"kind": "missing-hook", "hook": "verif:fmt-calls"}, no_input=True)
     for c, a, mv in zip(cases, impl, model):
         ck.count("corr-fmt-layout", c[0])
         if "ok" not in a:
